@@ -27,7 +27,13 @@ Inductive edit :=
 | EAppendRequestField (file elem meth : nat) (p : property)
 | EAppendResponseField (file elem meth : nat) (p : property)
 | EAppendTopicField (file elem msg : nat) (p : property)
-| EAppendIn (file elem : nat) (r : root) (path : list step) (a : action).   (* anywhere inside a declaration *)
+| EAppendIn (file elem : nat) (r : root) (path : list step) (a : action)   (* anywhere inside a declaration *)
+| EAppendTopicMsg (file elem : nat) (m : tmsg).   (* a message at the end of a publish topic whose messages all carry names *)
+
+(* acceptTopic names the rpc / message of a topic message after the message's own name; the topic's
+   name is used only for a message without a name, and only when it is the single one.  So a
+   message can be appended to a publish topic exactly when every message there has a name. *)
+Definition tm_named (t : tmsg) : bool := match tm_name t with Some _ => true | None => false end.
 
 Fixpoint update_nth {A} (n : nat) (f : A -> A) (l : list A) : list A :=
   match l, n with
@@ -120,6 +126,8 @@ Definition edit_element (e : edit) (el : element) : element :=
               | TUpsert n en m => TUpsert n en (mkTmsg (tm_name m) (snoc_prop (tm_fields m) p))
               | TEvent n en m => TEvent n en (mkTmsg (tm_name m) (snoc_prop (tm_fields m) p))
               end)
+  | EAppendTopicMsg _ _ m, ETopic (TPublish n msgs) =>
+      if forallb tm_named msgs then ETopic (TPublish n (msgs ++ [m])) else el
   | EAppendIn _ _ AtDecl path a, EObject nm ps subs => let (x, y) := apply_at path a ps subs in EObject nm x y
   | EAppendIn _ _ AtDecl path a, EOneof nm ps subs => let (x, y) := apply_at path a ps subs in EOneof nm x y
   | EAppendIn _ _ (AtRequest m) path a, EService s =>
@@ -147,14 +155,14 @@ Definition edit_file (e : edit) (f : jfile) : jfile :=
   match e with
   | EAppendDecl _ d => mkJfile (jf_dir f) (jf_base f) (jf_imports f) (jf_elements f ++ [d])
   | EAppendField _ k _ | EAppendOption _ k _ | EAppendRequestField _ k _ _
-  | EAppendResponseField _ k _ _ | EAppendTopicField _ k _ _ | EAppendIn _ k _ _ _ =>
+  | EAppendResponseField _ k _ _ | EAppendTopicField _ k _ _ | EAppendIn _ k _ _ _ | EAppendTopicMsg _ k _ =>
       mkJfile (jf_dir f) (jf_base f) (jf_imports f) (update_nth k (edit_element e) (jf_elements f))
   end.
 
 Definition edit_target (e : edit) : nat :=
   match e with
   | EAppendField f _ _ | EAppendOption f _ _ | EAppendDecl f _ | EAppendRequestField f _ _ _
-  | EAppendResponseField f _ _ _ | EAppendTopicField f _ _ _ | EAppendIn f _ _ _ _ => f
+  | EAppendResponseField f _ _ _ | EAppendTopicField f _ _ _ | EAppendIn f _ _ _ _ | EAppendTopicMsg f _ _ => f
   end.
 
 Definition apply_edit (bd : bundle) (e : edit) : bundle :=
@@ -302,7 +310,10 @@ Inductive topic_ext : topic -> topic -> Prop :=
 | te_reqres : forall n rq rq' rp rp', Forall2 tmsg_ext rq rq' -> Forall2 tmsg_ext rp rp' ->
     topic_ext (TReqRes n rq rp) (TReqRes n rq' rp')
 | te_upsert : forall n en m m', tmsg_ext m m' -> topic_ext (TUpsert n en m) (TUpsert n en m')
-| te_event : forall n en m m', tmsg_ext m m' -> topic_ext (TEvent n en m) (TEvent n en m').
+| te_event : forall n en m m', tmsg_ext m m' -> topic_ext (TEvent n en m) (TEvent n en m')
+(* messages appended to a publish topic all of whose messages carry names of their own *)
+| te_publish_app : forall n ms ms1 extra, Forall2 tmsg_ext ms ms1 -> forallb tm_named ms = true ->
+    topic_ext (TPublish n ms) (TPublish n (ms1 ++ extra)).
 
 Inductive element_ext : element -> element -> Prop :=
 | ee_object : forall nm ps ps' subs subs', props_ext ps ps' -> nesteds_ext subs subs' ->
